@@ -8,6 +8,27 @@ TB = ("Trusted base: Go front end + go/types, golang.org/x/tools v0.29.0 (go/pac
       "jsight-schema-core@v0.2.0 behaving as read; reference tables under tools/reference. ")
 
 CHECKS = {
+ "C04": dict(
+   engine="rules/c04.go (+ c03.go dropped-error rule, c16.go dependency-call rule)",
+   category="other",
+   text="Mechanisms behind 'accepted => serialisable': no compile/load/check error of a schema object is dropped on the build path (two sites are a recorded finding, F15), lazily computed content keeps its failure, ToJson/ToJsonIndent encode the same value, hand-written emitters write only encoder output, pseudo schemas exist only for any/empty, regex bodies are checked when built, path-variable properties bring all their types, pool-backed bytes are copied. The JDoc shape of every schema node is produced by the dependency and is not claimed.",
+   design="DESIGN.md §5 C04",
+   note=TB + "F15 is listed in known_findings.json (repair attempted, breaks pinned snapshots).",
+   technique="error-discipline lint over the reachable call graph; structural rules on emitters and constructors"),
+ "C16": dict(
+   engine="rules/effects.go (E5 write effects over SSA) + rules/c16.go",
+   category="other",
+   text="For the module's code: interprocedural write effects (fixpoint over SSA, Once closures cut) show that nothing reachable from the five accessors or from MarshalJSON/MarshalText writes into pre-existing catalog/core/directive objects or package state; Once closures keep their state in the object; stateful dependency calls are Once-memoised and pool-backed bytes are copied before being kept. Byte equality inside the dependency is trusted (classification table depAPI).",
+   design="DESIGN.md §5 C16",
+   note=TB + "Heap freshness is allocation-site based (no points-to analysis in x/tools v0.29.0).",
+   technique="mod/ref (write-effect) analysis on go/ssa with a VTA call graph; classification table for dependency calls"),
+ "C18": dict(
+   engine="rules/c18.go + effects.go + c06.go (package state)",
+   category="other",
+   text="The module's share of 'no unsynchronised shared mutable state': package variables are never written after initialisation, Options do not leak references between cores, mutex-guarded types access mutable fields only under the lock, serialisers only read apart from Once-protected state, no goroutines are started. In the dependency, byte slices of pooled buffers that are returned after the buffer went back to the pool are reported (8 functions, recorded finding F19). Schedules and happens-before are not decided.",
+   design="DESIGN.md §5 C18",
+   note=TB + "Both tiers load the dependency's source for the pooled-buffer rule.",
+   technique="package-state and lock-discipline lints, write-effect analysis, pooled-buffer escape pattern over dependency syntax"),
  "C02": dict(
    engine="E2 tables + rules/c02.go (+ shared C10/C11 rules)",
    category="other",
